@@ -20,11 +20,20 @@ lambdas wrapped by the same choice points (delegate | forced answer).
 
 The oracle reads only the invocation log (which callback, which stage, the identical signal object,
 its answer class, the object it returned) and the returned CascadeResult.
+
+Amplification: factors come from {1, 2, 150} in the families above and from {1, 2, 150, 0.5, 0.1, 0} in the
+"attenuation" families (every factor tuple with at least one factor below 1 on pipelines of 1..3 stages, attenuating
+patterns on 4..5 stages, crossed with max_amplification; MAPK preset with attenuating tiers).  "Clamped product" is
+read both ways -- clamp applied to the running product after every completed stage, or to the final product -- both
+computed with exact Fractions from the reported factors of the completed stages; total_amplification must be one of
+the two (hence THE value wherever they coincide, e.g. when the running product never exceeds the maximum).
 """
 from __future__ import annotations
 
 import contextlib
 import itertools
+import math
+from fractions import Fraction
 
 from mc import choice, common
 
@@ -33,6 +42,9 @@ from operon_ai.topology.cascade import (Cascade, CascadeMode, CascadeResult, Cas
 
 MAX_AMP = 100.0
 AMPS = (1, 2, 150)
+ATTENUATORS = (0.5, 0.1, 0)  # factors below 1: the running product can come down again
+FACTORS = AMPS + ATTENUATORS
+OBS_OPT_CONTINUES, OBS_RUNNING_CLAMP, OBS_FINAL_CLAMP = 1, 2, 4  # observation bits returned by judge()
 
 
 class Sig:
@@ -359,7 +371,7 @@ def _run_synthetic(halt, alph, stages, o, ch):
     v = []
     outcomes = []
     ncb = 0
-    obs_opt = False
+    obs_opt = 0
 
     def merge(j):
         nonlocal ncb, obs_opt
@@ -368,7 +380,7 @@ def _run_synthetic(halt, alph, stages, o, ch):
                 v.append((key, what))
         outcomes.append(j[1])
         ncb += j[2]
-        obs_opt = obs_opt or j[3]
+        obs_opt = obs_opt | j[3]
 
     if hist in ("grow", "shrink"):
         inp1 = Sig(("in1",))
@@ -430,7 +442,7 @@ def _run_synthetic(halt, alph, stages, o, ch):
             what = "callbacks" if a[0] != b[0] or script.diverged is not None or script.k != len(script.ans) else "result"
             merge(([(f"history-dependent:{what}:after-{hist}",
                      f"after history '{hist}' the run showed {a!r} but a fresh object with the same answers showed {b!r} "
-                     f"| stages={[m[1:] for m in meta]} halt_on_failure={bool(halt)}")], None, 0, False))
+                     f"| stages={[m[1:] for m in meta]} halt_on_failure={bool(halt)}")], None, 0, 0))
             outcomes.pop()
         ncb += len(env2.log)
     outcome = outcomes[0] if len(outcomes) == 1 else tuple(outcomes)
@@ -469,7 +481,7 @@ def _run_mapk(halt, alph, tiers, iname, o, ch):
 
 
 def judge(halt, meta, log, inp, res, maxamp=MAX_AMP):
-    """-> (violations [(key, what)], outcome, n_callbacks, observed-optional-block-continues)"""
+    """-> (violations [(key, what)], outcome, n_callbacks, observation bits OBS_*)"""
     v = []
     H = f"halt_on_failure={halt}"
     L = len(meta)
@@ -482,7 +494,7 @@ def judge(halt, meta, log, inp, res, maxamp=MAX_AMP):
 
     if not isinstance(res, CascadeResult):
         add(f"run-raised:{type(res).__name__}", f"Cascade.run raised {res!r}")
-        return v, ("raised", type(res).__name__), len(log), False
+        return v, ("raised", type(res).__name__), len(log), 0
 
     stray = [e for e in log if not 0 <= e[1] < L]
     if stray:
@@ -562,7 +574,8 @@ def judge(halt, meta, log, inp, res, maxamp=MAX_AMP):
         later = [e for e in log[j + 1:] if e[1] > i]
         if later:
             add(f"callback-after-halt:{cause}:{later[0][0]}", f"stage {i} {cause} but {later[0][0]} of stage {later[0][1]} still ran")
-    obs_opt = bool(halt and opt_block_event is not None and any(e[1] > opt_block_event[2] for e in log[opt_block_event[0] + 1:]))
+    obs_opt = OBS_OPT_CONTINUES if (halt and opt_block_event is not None
+                                    and any(e[1] > opt_block_event[2] for e in log[opt_block_event[0] + 1:])) else 0
 
     # (d) success only if every stage completed in order; then the output is the composition
     statuses = tuple(r.status.value for r in res.stage_results)
@@ -591,15 +604,22 @@ def judge(halt, meta, log, inp, res, maxamp=MAX_AMP):
     else:
         add("success-not-bool", f"success={res.success!r}")
 
-    # (f) amplification = clamped product of the reported factors of COMPLETED stages
-    prod = 1.0
-    for r in res.stage_results:
-        if r.status == StageStatus.COMPLETED:
-            prod *= r.amplification_factor
-    exp = min(maxamp, prod)
-    if res.total_amplification != exp:
-        add("amplification-mismatch" + (":unclamped" if res.total_amplification > maxamp else ""),
-            f"total_amplification={res.total_amplification} expected min({maxamp}, {prod})={exp}")
+    # (f) amplification = clamped product of the reported factors of COMPLETED stages, under either reading of "clamped"
+    facs = [r.amplification_factor for r in res.stage_results if r.status == StageStatus.COMPLETED]
+    total = res.total_amplification
+    readings = _amp_readings(facs, maxamp)
+    if readings is None:
+        add("amplification-factor-not-a-finite-number", f"reported factors of completed stages: {facs}")
+    else:
+        running, final = readings
+        hit_r, hit_f = _amp_close(total, running), _amp_close(total, final)
+        if not (hit_r or hit_f):
+            over = isinstance(total, (int, float)) and not isinstance(total, bool) and total > maxamp
+            add("amplification-mismatch" + (":unclamped" if over else ""),
+                f"total_amplification={total!r}, completed stages' factors {facs}: expected {float(running)}"
+                + ("" if running == final else f" (clamp on the running product) or {float(final)} (clamp on the final product)"))
+        elif running != final and hit_r != hit_f:
+            obs_opt |= OBS_RUNNING_CLAMP if hit_r else OBS_FINAL_CLAMP
     # normally completed stages report their configured factor (results <-> stages by name; by position when names repeat)
     unique = len({m[0] for m in meta}) == L
     byname = {m[0]: i for i, m in enumerate(meta)}
@@ -617,11 +637,46 @@ def judge(halt, meta, log, inp, res, maxamp=MAX_AMP):
     return v, outcome, len(full_log), obs_opt
 
 
+def _amp_readings(facs, maxamp):
+    """(clamp applied to the running product after every factor, clamp applied to the final product), exact"""
+    try:
+        fr = [Fraction(f) for f in facs]
+    except (TypeError, ValueError, OverflowError):
+        return None
+    cap = None if maxamp == float("inf") else Fraction(maxamp)
+    running = final = Fraction(1)
+    if cap is not None and running > cap:
+        running = cap
+    for f in fr:
+        final *= f
+        running *= f
+        if cap is not None and running > cap:
+            running = cap
+    if cap is not None and final > cap:
+        final = cap
+    return running, final
+
+
+AMP_TOL = Fraction(1, 10 ** 9)  # relative; the implementation multiplies floats (0.1 is not a binary fraction)
+
+
+def _amp_close(total, want):
+    if isinstance(total, bool) or not isinstance(total, (int, float)) or not math.isfinite(total):
+        return False
+    return abs(Fraction(total) - want) <= AMP_TOL * max(1, abs(want))
+
+
 # ----------------------------------------------------------------------------- enumeration
 
 STAGE_SHAPES = [(cp, h, req, amp) for cp in (1, 0) for h in (0, 1) for req in (1, 0) for amp in AMPS]
 CTRL_SHAPES = [(cp, h, req) for cp in (1, 0) for h in (0, 1) for req in (1, 0)]
 AMP_PATTERNS = [(1, 2, 150, 2, 1), (2, 150, 1, 150, 2), (150, 1, 2, 1, 150)]
+# attenuating patterns for the longer pipelines: the ceiling (default 100) is reached early / late / twice, by one factor
+# or by several, and is followed by every attenuator
+ATT_PATTERNS = [(150, 0.5, 2, 0.1, 150), (2, 150, 0.1, 150, 0.5), (150, 2, 0, 150, 0.5), (0.5, 150, 150, 0.1, 2),
+                (150, 150, 1, 0.5, 0.1), (0.1, 2, 150, 2, 0)]
+ATT_CTRL = [(1, 1, 1), (1, 1, 0)]  # checkpoint + handler (every per-stage outcome reachable by answers), required / optional
+ATT_OPTS = [()] + [(("maxamp", m),) for m in (1, 2.5, 1e9, "inf")]
 
 # non-default values of the public options / environment dimensions (each an axis of the scenario)
 OPT_AXES = (
@@ -668,6 +723,10 @@ def bounds(tier):
         "history-long": {} if q else {3: None},  # without the add_stage / remove_stage prefixes
         "history-wide-first-run": {1: None, 2: None},
         "history-x-option": {1: None} if q else {1: None, 2: None},
+        # factors below 1: every factor tuple over FACTORS with an attenuator (L<=2: all control shapes; L=3: checkpoint+handler
+        # stages, required / optional) x max_amplification; L=4,5: the attenuating patterns
+        "attenuation": {1: None, 2: None, 3: None},
+        "attenuation-pattern": {4: 2, 5: 2} if q else {4: None, 5: 3},
         "mapk": {3: None},
     }
 
@@ -709,6 +768,23 @@ def scenarios(tier):
     ctrl_family("history-wide-first-run", "widecp>core", [(("hist", h),) for h in ("same", "shared")], only_cp=True)
     ctrl_family("history-x-option", "core", [s + (("hist", h),) for h in HIST for s in OPT_SINGLES])
 
+    for L, dev in sorted(bd["attenuation"].items()):
+        for ctrl in itertools.product(CTRL_SHAPES if L <= 2 else ATT_CTRL, repeat=L):
+            for facs in itertools.product(FACTORS, repeat=L):
+                if not any(f in ATTENUATORS for f in facs):
+                    continue
+                stages = tuple(c + (f,) for c, f in zip(ctrl, facs))
+                for halt in (1, 0):
+                    for opts in ATT_OPTS:
+                        out.append(("syn", (halt, "core", stages, opts), dev, "attenuation"))
+    for L, dev in sorted(bd["attenuation-pattern"].items()):
+        for ctrl in itertools.product(ATT_CTRL, repeat=L):
+            for pat in ATT_PATTERNS:
+                stages = tuple(c + (pat[i],) for i, c in enumerate(ctrl))
+                for halt in (1, 0):
+                    for opts in ATT_OPTS:
+                        out.append(("syn", (halt, "core", stages, opts), dev, "attenuation-pattern"))
+
     mapk_opts = [()] + [s for s in OPT_SINGLES if s[0][0] in ("silent", "mode", "maxamp", "hooks")]
     for halt in (1, 0):
         for tiers in ((10, 10, 10), (150, 1, 1), (2, 3, 4)):
@@ -719,6 +795,12 @@ def scenarios(tier):
                     out.append(("mapk", (halt, "wide", tiers, iname, ()), None, "mapk"))
                 for opts in mapk_opts[1:]:
                     out.append(("mapk", (halt, "widecp", tiers, iname, opts), None, "mapk"))
+        # the preset with an attenuating tier (ceiling reached / not reached before it), x max_amplification
+        for tiers in ((10, 10, 0.1), (10, 0.5, 10), (150, 0.5, 0), (0.1, 150, 150)):
+            for iname in MAPK_INPUTS:
+                out.append(("mapk", (halt, "widecp", tiers, iname, ()), None, "mapk"))
+                for opts in ATT_OPTS:
+                    out.append(("mapk", (halt, "core", tiers, iname, opts), None, "mapk"))
     return out
 
 
@@ -736,7 +818,8 @@ def _novel(kind, shape, ch):
 
 
 def work(chunk):
-    c = {"executions": 0, "callbacks": 0, "nontrivial": 0, "obs_optional_block_continues": 0}
+    c = {"executions": 0, "callbacks": 0, "nontrivial": 0, "obs_optional_block_continues": 0,
+         "obs_clamp_on_running_product": 0, "obs_clamp_on_final_product": 0}
     outcomes = set()
     viol = {}
     sample = None
@@ -751,8 +834,12 @@ def work(chunk):
             c["callbacks"] += ncb
             if _novel(kind, shape, ch):
                 c["nontrivial"] += 1
-            if obs_opt:
+            if obs_opt & OBS_OPT_CONTINUES:
                 c["obs_optional_block_continues"] += 1
+            if obs_opt & OBS_RUNNING_CLAMP:
+                c["obs_clamp_on_running_product"] += 1
+            if obs_opt & OBS_FINAL_CLAMP:
+                c["obs_clamp_on_final_product"] += 1
             outcomes.add(outcome)
             if vs:
                 lab = ch.labelled()
@@ -816,6 +903,9 @@ def run(ctx):
             ctx.stats[k] += n
     if tot.get("obs_optional_block_continues"):
         ctx.note(f"{tot['obs_optional_block_continues']} halting runs continued after a blocked OPTIONAL stage (only required stages are judged)")
+    nr, nf = tot.get("obs_clamp_on_running_product", 0), tot.get("obs_clamp_on_final_product", 0)
+    ctx.note(f"'clamped product' is ambiguous when a factor below 1 follows the ceiling: in {nr} runs total_amplification was the "
+             f"running-product clamp only, in {nf} runs the final-product clamp only (either is accepted; where both agree the value is asserted)")
     bd = bounds(ctx.tier)
     capped = {f"{fam} L={L}": d for fam, m in bd.items() for L, d in m.items() if d is not None}
     ctx.coverage.update(
@@ -824,7 +914,8 @@ def run(ctx):
         traces_validated_against_impl=tot["executions"],
         evaluations=tot["executions"],
         distinct_nontrivial=tot["nontrivial"],
-        rule="static shapes (per stage: checkpoint?, handler?, required?, factor in {1,2,150}; halt_on_failure) are enumerated; for each "
+        rule="static shapes (per stage: checkpoint?, handler?, required?, factor in {1,2,150}, in the attenuation families "
+        "{1,2,150,0.5,0.1,0} with at least one factor below 1, x max_amplification in {1,2.5,100,1e9,inf}; halt_on_failure) are enumerated; for each "
         "the answer tree of the invoked callbacks is explored by the choice engine on the real Cascade.run. Core alphabet: checkpoint "
         "true/false/raise[/None], processor ok/raise, handler recover/raise. Widened families: checkpoint true in {True,1,'x',[0]}, false in "
         "{False,None,0,'',[]}, raise in {message, ValueError(), bare assert, StopIteration(), KeyError(''), str()=='' subclass, falsy "
@@ -842,12 +933,15 @@ def run(ctx):
         families={fam: {str(L): ("complete answer tree" if d is None else f"<= {d} deviations") for L, d in m.items()} for fam, m in bd.items()},
         option_axes={a: list(map(str, vals)) for a, vals in OPT_AXES},
         history_prefixes=list(HIST),
+        factor_alphabet=[str(f) for f in FACTORS],
     )
     if capped:
         ctx.coverage["caps_hit"] = "deviation bound " + ", ".join(f"{d} at {k}" for k, d in capped.items()) + \
             " (all other families / lengths: complete answer trees)"
     ctx.assumptions += [
-        "amplification factors >= 1 and max_amplification >= 1 (below 1 a running clamp and a final clamp differ and the statement does not say which)",
+        "amplification factors in {0, 0.1, 0.5, 1, 2, 150} (no negative factors) and max_amplification >= 1; where a clamp on the running "
+        "product and a clamp on the final product differ (a factor below 1 after the ceiling) the statement does not say which is meant and "
+        "either value is accepted; total_amplification is compared with the exact rational value to a relative tolerance of 1e-9",
         "callbacks raise Exception subclasses (not bare BaseException); completion hooks, when set, return normally; sequential run() only "
         "(run_parallel appears only as a history prefix)",
         "a truthy non-bool checkpoint answer counts as 'returned true', a falsy one (None, 0, '', []) as 'returned false'",
